@@ -188,6 +188,8 @@ def c17_rf2(run):
     rf_alloc.rf27(run)
     run.min_instances('RF27', 3)
     rf_alloc.rf2b(run)
+    rf_alloc.rf78(run)
+    run.min_instances('RF78', 30)
 
 
 def c17_rf4(run):
